@@ -214,3 +214,39 @@ func init() {
 		return string(b)
 	}
 }
+
+// repeatcheck: the history case format plus "n": Check / Example / UsedUserTypes of every schema on n freshly built pools;
+// output = the distinct result tuples (one element = deterministic).
+func init() {
+	commands["repeatcheck"] = func(args []string, line string) string {
+		var c histCase
+		var n struct {
+			N int `json:"n"`
+		}
+		if json.Unmarshal([]byte(line), &c) != nil || json.Unmarshal([]byte(line), &n) != nil {
+			return `["BADCASE"]`
+		}
+		if n.N <= 0 {
+			n.N = 100
+		}
+		seen := map[string]bool{}
+		var out []string
+		for i := 0; i < n.N; i++ {
+			p := buildPool(&c)
+			var parts []string
+			for si := range p.schemas {
+				r1, _ := runOp(p, []interface{}{"check", float64(si)})
+				r2, _ := runOp(p, []interface{}{"example", float64(si)})
+				r3, _ := runOp(p, []interface{}{"used", float64(si)})
+				parts = append(parts, r1+"/"+r2+"/"+r3)
+			}
+			k := strings.Join(parts, ";")
+			if !seen[k] {
+				seen[k] = true
+				out = append(out, k)
+			}
+		}
+		b, _ := json.Marshal(out)
+		return string(b)
+	}
+}
